@@ -35,6 +35,8 @@ func init() {
 	reg("R-LOCKCTX-MERGE", "R-LOCKCTX restricted to the cone of DB.Merge.", ruleLockCtxMerge)
 	reg("R-TXPAIR", "Begin releases the lock on its error exits and tests db.closed under the lock; Commit/Rollback unlock exactly once on success and never return an error after unlocking; every successful Begin is followed on all paths by Commit or Rollback, and a failed or unchecked Commit by Rollback.", ruleTxPairing)
 	reg("R-COMMIT-EMPTY", "In Tx.Commit every instruction that changes shared state or files is dominated by len(pendingWrites) != 0, so a read-only transaction (shared lock) changes nothing when it commits.", ruleCommitNoopWhenEmpty)
+	reg("R-LIVE", "Every *Entry / []*Entry that can reach a feasible return of Get, GetAll, RangeScan, PrefixScan or PrefixSearchScan (CFG specialised to offset 0 / no limit) is nil, individually dominated by the tombstone test and the expiry test on the record it derives from, or produced by a function with the same property; every IsExpired call receives (TTL, timestamp) of one record.", ruleLive)
+	reg("R-EXPIRY", "IsExpired, evaluated from its SSA form over a grid of (ttl, timestamp, now) on both sides of and exactly at the expiry instant, equals ttl != 0 && now >= timestamp+ttl; Record.IsExpired delegates with the record's own fields.", ruleExpiry)
 }
 
 var properties = []Property{
